@@ -22,6 +22,7 @@ DECLINED = ["round semantics over arbitrary histories", "behaviour of pthread_ba
 ASSUMPTIONS = ["C05.R4 (broadcast wakes every queued waiter) and C04.R3 (enqueue contract)"]
 RULES_DOC = dict(common.SHARED_DOC)
 RULES_DOC["X4"] = common.X4_DOC
+RULES_DOC["X5"] = common.X5_DOC
 RULES_DOC.update({
     "R1": "barrier_wait: counter ++/compare/reset inside the lock; non-last arm enqueues with the barrier's list+lock; last arm broadcasts and resets before release",
     "R2": "barrier_wait: every success path waited or broadcast, exactly one of the two",
@@ -225,6 +226,7 @@ def rule_R3(P, rep):
 
 
 def run(P, rep, tier):
+    common.rule_widths(P, rep, [('ABTI_barrier', 'counter'), ('ABTI_barrier', 'num_waiters'), ('ABTI_xstream_barrier', 'counter'), ('ABTI_xstream_barrier', 'tag'), ('ABTI_xstream_barrier', 'num_waiters')])
     common.rule_X4(P, rep)
     common.run_shared(P, rep)
     rule_R1_R2(P, rep)
